@@ -48,6 +48,8 @@ def consistent_mutants(raw):
     tail = raw[end:]
 
     def encode(node):
+        if node[0] == "raw":                  # an element encoded elsewhere (iteratively: deep nestings)
+            return node[1]
         c, k, n, body = node
         inner = b"".join(encode(x) for x in body) if k else body
         return der.enc(c, k, n, inner)
@@ -82,6 +84,22 @@ def consistent_mutants(raw):
                 out.append(encode(replace(tree, pth, f)) + tail)
             except Exception:  # noqa
                 pass
+
+    # deep nesting: a primitive value re-encoded in its BER constructed form, nested inside itself hundreds / thousands of levels
+    # (a reader that follows constructed segments recursively needs an interpreter frame or two per level), and the same depth of
+    # plain SEQUENCE wrappers around a value; encoded iteratively, innermost first
+    def nest(n, depth, constructed_same_tag):
+        enc = der.enc(n[0], False, n[2], n[3])
+        for _ in range(depth):
+            enc = der.enc(n[0], True, n[2], enc) if constructed_same_tag else der.enc(0, True, 16, enc)
+        return ("raw", enc)
+    for pth in [q for q in paths if q]:
+        for depth in (600, 5000):
+            for same in (True, False):
+                try:
+                    out.append(encode(replace(tree, pth, lambda n, depth=depth, same=same: nest(n, depth, same) if not n[1] else n)) + tail)
+                except Exception:  # noqa
+                    pass
     return out
 
 
